@@ -32,7 +32,7 @@ META = {
                     "bounded recovery as in C07 (12 rounds)"],
 }
 REQUIRED_ORACLES = ["counter-agreement", "continuity", "no-number-reuse", "no-spurious-resend", "kill-points"]
-REQUIRED_COUNTERS = ["receivers_stopped_while_their_handler_was_suspended", "original_transmissions_with_explicit_possdup_n", "sends_cut_by_a_lost_connection"]
+REQUIRED_COUNTERS = ["receivers_stopped_while_their_handler_was_suspended", "original_transmissions_with_explicit_possdup_n", "sends_cut_by_a_lost_connection", "interval_heartbeats_sent_by_an_idle_peer"]
 NSHARDS = 16
 NHIST = {"quick": 10, "thorough": 150}
 KILL_STRIDE = {"quick": 2, "thorough": 1}
@@ -139,6 +139,7 @@ class Sess:
     explicit_n = 0
     slow_stops = 0
     sends_cut_by_a_lost_connection = 0
+    interval_heartbeats = 0
 
     async def send(self, side, prefix=""):
         from asyncfix import FIXMessage
@@ -258,6 +259,8 @@ def gen_history(rnd):
             steps.append(("send_slow_stop", rnd.choice("IA")))    # the receiver is stopped (tasks cancelled) while its handler is still awaiting
         elif r < 0.10:
             steps.append(("send_dying", rnd.choice("IA")))        # the connection is lost exactly under the drain() of a send
+        elif r < 0.15:
+            steps.append(("send_hb", rnd.choice("IA"), rnd.choice([1, 1, 2])))   # interval Heartbeats, as other engines send them when idle
         elif r < 0.34:
             steps.append(("send", rnd.choice("IA")))
         elif r < 0.7:
@@ -285,6 +288,18 @@ async def do_step(s, st):
     if k == "send":
         ident, r = await s.send(st[1])
         s.trace.append(f"send{st[1]}:{ident}:{r}")
+    elif k == "send_hb":
+        # this library probes an idle line with TestRequests; most engines send Heartbeat(35=0) without TestReqID every HeartBtInt
+        ok = 0
+        for _ in range(st[2]):
+            try:
+                if not s.ctl.dead:
+                    await w.ep[st[1]].send_msg(FIXMessage("0"))
+                    ok += 1
+            except Exception:
+                pass
+        s.interval_heartbeats += ok
+        s.trace.append(f"send_hb{st[1]}x{ok}")
     elif k == "send_stop":
         if quiescent(s):
             ident, r = await s.send(st[1], prefix="stop")
@@ -463,6 +478,7 @@ def end_oracle(acc, s, how, cid, restart_info):
            "logon_errors": s.logon_errors}
     acc.add("receivers_stopped_while_their_handler_was_suspended", s.slow_stops)
     acc.add("sends_cut_by_a_lost_connection", s.sends_cut_by_a_lost_connection)
+    acc.add("interval_heartbeats_sent_by_an_idle_peer", s.interval_heartbeats)
     acc.add("breaks_in_the_middle_of_a_frame", s.w.partial_frames_delivered)
     acc.add("original_transmissions_with_explicit_possdup_n", s.explicit_n)
     # (3) no reuse of an outbound number for a different message
